@@ -8,7 +8,7 @@ def parseResF (s : String) : Option Res :=
 
 def parsePlan (s : String) : Option (List PT) :=
   if s == "-" then some []
-  else s.toList.mapM (fun c => if c == 'f' then some PT.f else if c == 'l' then some PT.l else none)
+  else s.toList.mapM (fun c => if c == 'f' then some PT.f else if c == 'l' then some PT.l else if c == 'x' then some PT.x else none)
 
 def parseHas (s : String) : Option Has :=
   if s == "all" then some .all else if s == "none" then some .none else if s == "mixed" then some .mixed else none
@@ -41,7 +41,7 @@ def parseObsTokF (o : Obs) (t : String) : Option Obs :=
 
 def faultArm (retries : Nat) (op : FOp) : String :=
   let planArm (a lead : Nat) (plan : List PT) : String :=
-    (if a == lead then "L" else "F") ++ ":" ++
+    (if plan.contains .x then "X" else if a == lead then "L" else "F") ++ ":" ++
     (if plan.isEmpty then "k0" else if plan.length > retries + 1 then "kall" else if plan.length == retries + 1 then "kr+1"
      else if plan.length == retries then "kr" else "k" ++ toString plan.length) ++
     (if plan.contains .l then (if plan.contains .f then ":mixed" else ":lost") else if plan.isEmpty then "" else ":refused")
@@ -83,7 +83,7 @@ def answerFault (ws : List String) : String :=
               | some log' => go log' rest
               | none =>
                 let show_ (att : Attempt) (a j lead : Nat) (plan : List PT) : String :=
-                  let t := consLoopT a k.retries att (planOrc lead plan) (k.retries + 1) 0 log
+                  let t := consLoopT a k.retries att (planOrc a lead plan) (k.retries + 1) 0 log
                   (if fPlaced k.init log a lead then "" else "caller-or-leader-not-a-running-server ") ++
                   "model: res=" ++ (if t.1.1 == .ok then "ok" else "err") ++ " fwd=" ++ toString (fwdCount t.2) ++
                     " loc=" ++ toString (locCount t.2) ++ " has=" ++ (if modelHas t.1.2 j == .all then "all" else "none")
@@ -131,5 +131,46 @@ def answerConc (ws : List String) : String :=
       "propfail " ++ ",".intercalate ((failed.map (·.1)).eraseDups) ++ " arm=" ++ arm
     else if !cAllowed k then "diff arm=" ++ arm ++ " no-order-of-the-phases-explains-outcomes-and-observation"
     else "ok arm=" ++ arm ++ triv
+
+/-! joiner during a burst: `C17 j r=.. rp=1 init=.. joiner=3 pre=<k0> burst=<n> shape=<pin shape with # for the cid> acked=<a> add=<res> ready=<lvs>@<pinset> => obs` -/
+def kv (ws : List String) (key : String) : Option String :=
+  (ws.find? (·.startsWith (key ++ "="))).map (fun t => (t.drop (key.length + 1)).toString)
+
+def parseBitsF (s : String) : Option (Bool × Bool × Bool) :=
+  match s.toList with
+  | [a, b, c] => some (a == '1', b == '1', c == '1')
+  | _ => none
+
+def answerJoin (ws : List String) : String :=
+  match (do
+    let (pre, post) ← splitArrow ws
+    let init ← nats (← kv pre "init")
+    let joiner ← (← kv pre "joiner").toNat?
+    let k0 ← (← kv pre "pre").toNat?
+    let n ← (← kv pre "burst").toNat?
+    let shape ← kv pre "shape"
+    let acked ← (← kv pre "acked").toNat?
+    let addRes ← parseResF (← kv pre "add")
+    let rdy ← kv pre "ready"
+    let (bitsS, pinsS) ← match rdy.splitOn "@" with
+      | [b, p] => some (b, p)
+      | _ => none
+    let bits ← parseBitsF bitsS
+    let ready ← parsePinset pinsS
+    let pins ← (List.range (k0 + n)).mapM (fun c => parsePin (shape.replace "#" (toString c)))
+    let obs ← post.foldlM parseObsTokF { members := [], gone := [] }
+    pure ({ init := init, joiner := joiner, pre := pins.take k0, burst := pins.drop k0, acked := acked, addRes := addRes,
+            bits := bits, ready := ready, obs := obs } : JCase)) with
+  | none => "bad-case parse"
+  | some k =>
+    if k.init.isEmpty || k.init.contains k.joiner then "bad-case init" else
+    if k.acked > k.burst.length then "bad-case acked" else
+    let arm := "j:n" ++ toString k.init.length ++ ":pre" ++ toString k.pre.length ++ ":acked" ++ toString (k.acked * 4 / (k.burst.length + 1)) ++
+      "of4:ready" ++ toString ((k.ready.length - (k.pre.length + k.acked)) * 4 / (k.burst.length - k.acked + 1)) ++ "of4"
+    let failed := (jClauses k).filter (fun c => !c.2)
+    if !failed.isEmpty then
+      "propfail " ++ ",".intercalate ((failed.map (·.1)).eraseDups) ++ " arm=" ++ arm
+    else if !jAllowed k then "diff arm=" ++ arm ++ " no-position-of-the-addition-explains-the-joiner"
+    else "ok arm=" ++ arm
 
 end CV.C17
